@@ -474,6 +474,45 @@ func c09(r *core.Report) {
 		}
 	}
 
+	// ---- C09-PARTIAL-KEPT: a split payload arrives complete only if the receiver keeps the parts it
+	// already has while the others are on their way: the fragment layer's cleanup pass compares a
+	// collector's age with the layer's ttl, so collectors must record when they were created and the
+	// ttl must be positive — with both left at their zero values every pass deletes every partial message
+	r.Rule("C09-PARTIAL-KEPT", "mbapp collectors record their creation time and the fragment layer's ttl is positive", 2)
+	if nc, nfl := needFn(r, "p/mbapp", "newCollector"), needFn(r, "p/mbapp", "newFragLayer"); nc != nil && nfl != nil {
+		ca := needField(r, "p/mbapp", "collector", "createdAt")
+		ttl := needField(r, "p/mbapp", "fragLayer", "ttl")
+		okCA := false
+		for _, st := range core.StoresToField(nc, ca) {
+			if core.DerivesFrom(st.Val, func(x ssa.Value) bool { _, isP := x.(*ssa.Parameter); return isP }) || core.DerivesFrom(st.Val, func(x ssa.Value) bool {
+				c, ok := x.(*ssa.Call)
+				return ok && core.CalleeName(c.Common()) == "time.Now"
+			}) {
+				okCA = true
+			}
+		}
+		r.Check(okCA, "C09-PARTIAL-KEPT", core.FnName(nc)+" createdAt", p.Pos(nc.Pos()), "a new collector records its creation time", "a new collector's creation time stays the zero time: the cleanup pass considers every partial message older than any ttl and deletes it, so a message whose fragments straddle a pass never completes")
+		okTTL := false
+		for _, fn := range p.ModFuncs {
+			if fn.Pkg != nfl.Pkg {
+				continue
+			}
+			for _, st := range core.StoresToField(fn, ttl) {
+				if k, isK := core.ConstInt(st.Val); isK && k > 0 {
+					okTTL = true
+				} else if !isK {
+					okTTL = true // configured value
+				}
+			}
+		}
+		r.Check(okTTL, "C09-PARTIAL-KEPT", "fragLayer.ttl", p.Pos(nfl.Pos()), "the fragment layer's ttl is set to a positive duration", "the fragment layer's ttl is never set (zero): every cleanup pass deletes every partial message")
+	}
+
+	// ---- C09-COMPLETE (shared with C10-COMPLETE): "arrives complete": a payload within MTU() that was
+	// split is handed up only after every part is in
+	r.Rule("C09-COMPLETE", "assembly/delivery only after the completion test; the test covers every part", 5)
+	ruleComplete(r, "C09-COMPLETE")
+
 	// ---- C09-RECV-LIMIT
 	r.Rule("C09-RECV-LIMIT", "a read bounded by the MTU rejects an oversize message instead of delivering its prefix", 1)
 	h := resolveHubs(r)
